@@ -39,7 +39,9 @@ CONSTANTS Secrets, Phantoms, Transports,  \* sets of strings
           TU, TA, MaxAge,                 \* unused / active lifetime, age cap
           MaxCount,                       \* cap on the duplicate counter (bounding only)
           TickSteps,                      \* set of admissible time advances
-          MaxTracked                      \* state constraint: registrations tracked at once
+          MaxTracked,                     \* state constraint: registrations tracked at once
+          SweepCap                        \* 0: one sweep removes EVERY expired registration (what the property states - "after a clean-up
+                                          \* sweep ... if and only if"); n > 0: a sweep stops after n removals (a broken instance)
 
 VARIABLES reg,    \* [Keys -> {None} \cup [valid, count]]
           tmo,    \* [TKeys -> {None} \cup [k, age, used]]
@@ -128,7 +130,9 @@ Tick(d) ==
 \* returns nil before deleting anything).
 Sweep ==
   LET ex == {tk \in TKeys : tmo[tk] # None /\ Expired(tmo[tk])}
-      rm == {tk \in ex : reg[tmo[tk].k] # None}
+      rmAll == {tk \in ex : reg[tmo[tk].k] # None}
+      rm == IF SweepCap = 0 \/ Cardinality(rmAll) <= SweepCap THEN rmAll
+            ELSE CHOOSE S \in SUBSET rmAll : Cardinality(S) = SweepCap
       gone == {tmo[tk].k : tk \in rm} IN
   /\ tmo' = [tk \in TKeys |-> IF tk \in rm THEN None ELSE tmo[tk]]
   /\ reg' = [k \in Keys |-> IF k \in gone THEN None ELSE reg[k]]
